@@ -153,3 +153,21 @@ def run_spec_search(ctx, rng, ntrees, npats, on_case=None, cfgs=CFGS, tree_size=
             if len(samples) < 3:
                 samples.append({'tree': spec[:8], 'pattern': pattern})
     return evals, len(nontriv), samples, known
+
+
+def gsplit_corr(ctx, rng, name='_GlobSplit.split parts (Unix rules)'):
+    """Coq GlobSplit.gsplit vs glob._GlobSplit(p, flags).split(): exact part lists (text, is_magic, is_globstar,
+    is_globstarlong, dir_only, is_drive) or ValueError."""
+    from wclib import strings_upto
+    F = corr.fl
+    pats = list(strings_upto('a*/\\[]!(|)@.-', 3 if ctx.quick else 5))
+    toks = ['**', '***', '/', '\\/', '\\\\', 'a', 'b', '.', '*', '?', '[', ']', '[a/b]', '[!a]', '[[:alpha:]]', '@(', '!(', '+(', ')', '|', '{', '}', '~', '-', '!', '//', '\\']
+    for _ in range(4000 if ctx.quick else 60000):
+        pats.append(''.join(rng.choice(toks) for _ in range(rng.randint(2, 9))))
+    pats = sorted(set(pats))
+    fs = [F('PATHNAME'), F('PATHNAME', 'EXTMATCH', 'GLOBSTAR'), F('PATHNAME', 'GLOBSTAR', 'GLOBSTARLONG', 'MATCHBASE', 'FOLLOW'),
+          F('PATHNAME', 'EXTMATCH', 'NEGATE', '_EXTMATCHBASE', 'GLOBSTAR'), F('PATHNAME', '_NOABSOLUTE', 'BRACE', 'SPLIT', 'GLOBTILDE'),
+          F('PATHNAME', 'EXTMATCH', 'NEGATE', 'MINUSNEGATE', 'MATCHBASE', 'GLOBSTARLONG'), F('PATHNAME', 'GLOBSTARLONG', 'EXTMATCH', 'MATCHBASE')]
+    res = corr.corr_gsplit(pats, fs)
+    ctx.corr(name, res)
+    return res
